@@ -126,7 +126,7 @@ def fam_link():
     recipes.append([call("ZeroValue"), call("RequireNoFollowOnLinks", b=True), call("AddTargetBlankToFullyQualifiedLinks", b=True),
                     AA(["href", "rel", "target"], ["a", "area", "link"]), call("AllowURLSchemes", schemes=["http", "https"])])
     alpha = (av("href", ["http://e.com/x", "/rel", "javascript:x", "http://e.com/%zz", "/p?a\u00a0#"]) +
-             av("rel", ["nofollow", "NOFOLLOW", "xnofollowx", "tag noopener", "notnoopenerx noreferrer"]) +
+             av("rel", ["nofollow", "NOFOLLOW", "xnofollowx", "tag noopener", "notnoopenerx noreferrer", ""]) +
              av("target", ["_blank", "_top"]))
     return dict(name="link", recipes=recipes, tokens=[], attrs={"a": alpha, "area": alpha, "link": alpha})
 
@@ -161,6 +161,9 @@ def fam_url():
         base + [call("AllowURLSchemesMatching", pat="^x")],
         base + [call("AllowURLSchemes", schemes=["http"]), call("AllowURLSchemeWithCustomPolicy", scheme="HTTP", fid=hx)],
         base + [call("AllowURLSchemes", schemes=["data", "http"]), call("AllowRelativeURLs", b=True), call("AllowRelativeURLs", b=False)],
+        [call("NewPolicy"), call("AllowElements", names=sorted(els)), AA(["href", "cite", "src"], []), call("AllowURLSchemes", schemes=["http", "https"])],
+        base + [call("AllowRelativeURLs", b=True)],
+        base + [call("RequireParseableURLs", b=True)],
     ]
     attrs = {el: av(k, URLS) + av("class", ["k"]) for el, k in els.items()}
     return dict(name="url", recipes=recipes, tokens=[], attrs=attrs)
@@ -171,7 +174,7 @@ def fam_urldup():
     vals = ["http://example.org/a", "javascript:alert(1)", "vbscript:x", "/rel/path", "a b"]
     els = {"a": "href", "img": "src", "q": "cite"}
     f["attrs"] = {el: av(k, vals) + av("class", ["k"]) for el, k in els.items()}
-    f["recipes"] = [f["recipes"][i] for i in (0, 1, 4, 5, 7)]
+    f["recipes"] = [f["recipes"][i] for i in (0, 1, 4, 5, 7, 12, 13)]
     f["name"] = "urldup"
     return f
 
@@ -199,6 +202,8 @@ def fam_forced():
                     call("RequireCrossOriginAnonymous", b=True)])
     recipes.append(base + [call("RequireNoFollowOnLinks", b=True), call("RequireCrossOriginAnonymous", b=True)])
     recipes.append(base + [call("RequireSandboxOnIFrame", vals=["allow-popups-to-escape-sandbox"])])
+    # script is emitted only under AllowUnsafe: it is one of the five elements the crossorigin clause names
+    recipes.append(base + [call("AllowUnsafe", b=True), call("RequireCrossOriginAnonymous", b=True)])
     alpha = (av("crossorigin", ["anonymous", "use-credentials", ""]) +
              av("sandbox", ["allow-forms", "allow-forms allow-forms", "allow-scripts bogus\tallow-forms", "", "ALLOW-FORMS",
                             "allow-popups allow-popups-to-escape-sandbox"]) +
@@ -211,6 +216,7 @@ def fam_allow():
     base = [call("NewPolicy"),
             AA(["class"], ["span"], match=lower), AA(["CLASS"], [], match=digits), AA(["id"], []),
             AA(["title"], pat="^custom-", noattrs=True), AA(["title"], pat="-x$", match="re:^t"), AA(["rev"], pat="-x$"),
+            AA(["title"], pat="^custom-", match="re:^z"),   # a second rule for the same attribute on the same pattern: rules accumulate
             AA(["dir"], pat="^custom-", match="re:^(rtl|ltr)$"),
             AA(["lang"], ["custom-x"]), call("AllowElements", names=["B"]), AA(["href"], ["a"]),
             AA(["style"], ["span"])]
@@ -219,7 +225,7 @@ def fam_allow():
                        call("AllowStyles", props=["color"], scope="els", els=["b"])],   # style rules for ANOTHER element only
                [call("NewPolicy"), AA(["class", "title"], pat=".*", match=lower), call("AllowElementsMatching", pat="^b")]]
     alpha = (av("class", ["abc", "123", "a1", " 123", "abc\n", "\tabc "]) + av("id", ["x"]) + av("title", ["tt", "zz", "bx-x", "custom-y"]) + av("lang", ["en"]) +
-             av("onclick", ["x"]) + av("data-x", ["1"]) + av("data-a;b", ["1"]) + av("data-xmlq", ["1"]) + av("data-adata-;x", ["1"]) + av("data-;x", ["1"]) + av("data-;", ["1"]) + av("data-data-xmlq", ["1"]) + av("x\"y", ["v"]) +
+             av("onclick", ["x"]) + av("data-x", ["1"]) + av("data-a;b", ["1"]) + av("data-xmlq", ["1"]) + av("data-adata-;x", ["1"]) + av("\u0130d", ["x"]) + av("lan\u0261", ["en"]) + av("data-;x", ["1"]) + av("data-;", ["1"]) + av("data-data-xmlq", ["1"]) + av("x\"y", ["v"]) +
              av("href", ["/x"]) + av("style", ["color: red"]))
     # custom-x is also named explicitly (shadows the patterns); custom-b-x is reached through both patterns only
     els = ["span", "custom-x", "custom-y", "custom-b-x", "b", "a", "blink", "bx-x"]
@@ -246,6 +252,7 @@ def fam_style():
         base + [AS(["color"], "els", els=["span"], enum="e:red"), AS(["color"], "els", els=["span"], re="r:^blue$"),
                 AS(["color"], "pat", pat="^sp", enum="e:green")],
         base + [AS(["nosuchprop", "color"], "els", els=["span"])],
+        base + [AS(["color"], "els", els=["span"], enum="e:Red|BLUE"), AS(["text-align"], "glob", enum="e:Center")],   # enumerations compare case-insensitively
         base,
         # default handlers for several properties on an element pattern
         base + [AS(["color", "width", "text-align"], "pat", pat="^custom-")],
@@ -280,7 +287,7 @@ def fam_conf():
             tok("start", "custom-x"), tok("start", "custom-x", (("title", "t"), ("class", "k"))), tok("end", "custom-x"),
             tok("start", "q", (("cite", "http://e.com/x"),)), tok("end", "q"),
             tok("start", "blink"), tok("self", "b"), tok("start", "b", (("data-x", "1"),)), tok("self", "custom-x"),
-            tok("text", d="t&<x"), tok("text", d="a\rb"), tok("comment", d="cmt")]
+            tok("text", d="t&<x"), tok("text", d="a\rb"), tok("text", d="\ufeff\ufeffy"), tok("comment", d="cmt")]
     return dict(name="conf", recipes=recipes, tokens=toks)
 
 def fam_ugc():
@@ -335,6 +342,15 @@ def fam_policy():
                  [call("UGCPolicy"), call("UGCPolicy")], [call("StrictPolicy"), call("ZeroValue")]]
     return dict(name="policy", ctorpairs=ctorpairs, calls=calls, recipes=[], tokens=[])
 
+def fam_policy3():
+    """C17, histories of three calls: a reduced call alphabet (case variants, overlapping patterns, toggles, zero-value start)."""
+    f = fam_policy()
+    keep = [0, 2, 3, 4, 6, 7, 8, 9, 11, 13, 15, 17, 18, 23, 25, 26]
+    f["calls"] = [f["calls"][i] for i in keep]
+    f["ctorpairs"] = [f["ctorpairs"][1], f["ctorpairs"][2]]
+    f["name"] = "policy3"
+    return f
+
 def fam_io():
     """C15 / C16: entry points, writer kinds, write-failure indexes, reader-failure offsets."""
     ugcx = [call("UGCPolicy"), call("AllowComments"), call("AddSpaceWhenStrippingTag", b=True)]
@@ -356,6 +372,8 @@ def fam_io():
         dict(blank=False, toks=[tok("start", "b"), T("x"), tok("end", "b"), T("y" * 5000), tok("start", "b"), tok("end", "b")]),
         # a byte order mark is character data like any other: every entry point and every chunking must treat it alike
         dict(blank=False, toks=[T("\ufeffbom "), tok("start", "b"), T("x"), tok("end", "b")]),
+        dict(blank=False, toks=[T("a\r\nb\rc")]),      # no markup at all, carriage returns
+        dict(blank=False, toks=[T("\ufeff\ufeffy")]),
     ]
     return dict(name="io", recipes=recipes, docs=docs, tokens=[])
 
@@ -369,12 +387,13 @@ def fam_conc():
     # options whose handling touches maps or (wrongly) the policy itself during a call: sandbox token sets, link options with URL
     # checking switched off afterwards
     opts = [call("NewPolicy"), AA(["href"], ["a"]), call("RequireNoFollowOnLinks", b=True), call("RequireParseableURLs", b=False),
-            call("AllowIFrames", vals=["allow-forms", "allow-scripts", "allow-popups"])]
+            call("AllowIFrames", vals=["allow-forms", "allow-scripts", "allow-popups"]), call("AllowURLSchemesMatching", pat="^(ftp|tel)$")]
     recipes = [[call("UGCPolicy"), call("AllowComments")], pats, [call("StrictPolicy")], opts]
     T = lambda d: tok("text", d=d)
     docs = [
         dict(toks=[tok("start", "iframe", (("sandbox", "allow-scripts allow-forms allow-scripts allow-popups allow-forms"),)), tok("end", "iframe"),
                    tok("start", "a", (("href", "x y"),)), T("l"), tok("end", "a")]),
+        dict(toks=[tok("start", "a", (("href", "ftp://f/x"),)), T("f"), tok("end", "a"), tok("start", "a", (("href", "tel:+1"),)), T("t"), tok("end", "a")]),
         dict(toks=[tok("start", "custom-x", (("class", "abc"), ("style", "color: green; font-size: 12px"))), T("one"), tok("end", "custom-x")]),
         dict(toks=[tok("start", "object"), T("hidden"), tok("end", "object")]),
         dict(toks=[tok("start", "a", (("href", "http://e.com/"),)), T("two"), tok("end", "a")]),
@@ -484,7 +503,7 @@ def fam_refine():
     toks += [tok("text", d="t"), tok("comment", d="c"), tok("doctype", d="html")]
     return dict(name="refine", recipes=recipes, tokens=toks)
 
-FAMS = dict(refine=fam_refine, nesty=fam_nesty, urldup=fam_urldup, nestx=fam_nestx, nestw=fam_nestw, nest=fam_nest, css=fam_css, conc_zero=fam_conc_zero, conc=fam_conc, io=fam_io, policy=fam_policy, ugc=fam_ugc, conf=fam_conf, loop=fam_loop, loopq=fam_loopq, link=fam_link, url=fam_url, forced=fam_forced, allow=fam_allow, style=fam_style)
+FAMS = dict(policy3=fam_policy3, refine=fam_refine, nesty=fam_nesty, urldup=fam_urldup, nestx=fam_nestx, nestw=fam_nestw, nest=fam_nest, css=fam_css, conc_zero=fam_conc_zero, conc=fam_conc, io=fam_io, policy=fam_policy, ugc=fam_ugc, conf=fam_conf, loop=fam_loop, loopq=fam_loopq, link=fam_link, url=fam_url, forced=fam_forced, allow=fam_allow, style=fam_style)
 
 if __name__ == "__main__":
     here = os.path.dirname(os.path.abspath(__file__))
